@@ -496,15 +496,16 @@ class Block:
         """
         if self.is_excluded_combination(di):
             return True
-        if self.crossings == []:
-            return False
-        for f in self.crossings[0]:
-            if isinstance(f, DerivedFactor) and not f.has_complex_window and f in di:
+        # This must agree with how `crossing_size` counts impossible combinations:
+        # a derived level is impossible if no choice of levels for the window factors
+        # that are not part of the combination satisfies its predicate.
+        for f in di:
+            if isinstance(f, DerivedFactor) and not f.has_complex_window:
                 l = cast(DerivedLevel, di[f])
-                if all([df in di for df in l.window.factors]):
-                    args = [di[df].name for df in l.window.factors]
-                    if not l.window.predicate(*args):
-                        return True
+                argss = [[di[df].name] if df in di else [ll.name for ll in df.levels]
+                         for df in l.window.factors]
+                if not any(l.window.predicate(*args) for args in product(*argss)):
+                    return True
         return False
 
     def build_backend_request(self) -> BackendRequest:
